@@ -1,14 +1,16 @@
 #!/bin/bash
-# Development helper: runs all checks against a behaviour-preserving change; any alarm is a false alarm.
-# usage: benigncheck.sh <patch.diff>
+# Development helper: runs checks against a behaviour-preserving change; any alarm is a false alarm.
+# usage: benigncheck.sh <patch.diff> [binary] [properties]
 set -u
 P=$1
+BIN=${2:-/verif/pqlcheck}
+PROPS=${3:-all}
 export GOFLAGS=-mod=mod GOPROXY=off GOSUMDB=off GOTOOLCHAIN=local
 unset GOWORK
 W=$(mktemp -d /tmp/bn.XXXX); rmdir $W
 git -C /repo worktree add -q --detach $W HEAD || exit 9
 git -C $W apply $P || { echo APPLY-FAILED; git -C /repo worktree remove --force $W; exit 8; }
-(cd $W && go build ./... && go test -count=1 ./... 2>&1 | grep -v "^ok" | head -5)
+if [ -z "${NOSUITE:-}" ]; then (cd $W && go build ./... && go test -count=1 ./... 2>&1 | grep -v "^ok" | head -5); fi
 cd /verif
-./pqlcheck check all --no-evidence --repo $W 2>&1 | grep -E "^  violation|CHECKER-ERROR|^VIOLATION" | cut -c1-330
+$BIN check $PROPS --no-evidence --repo $W 2>&1 | grep -E "^  violation|CHECKER-ERROR|^VIOLATION" | cut -c1-${WIDTH:-330}
 git -C /repo worktree remove --force $W
